@@ -406,14 +406,30 @@ func c03poolCtxFields(c *core.Ctx) (in, out *types.Var) {
 			continue
 		}
 		var ins, outs []*types.Var
-		for i := 0; i < st.NumFields(); i++ {
-			switch {
-			case c03ptrTo(st.Field(i).Type(), Mod+c03hp, "Request"):
-				ins = append(ins, st.Field(i))
-			case c03ptrTo(st.Field(i).Type(), "net/http", "Request"):
-				outs = append(outs, st.Field(i))
+		// the fields of the struct and of the package's own structs it embeds / contains (a part
+		// of the context moved into a sub-struct is still part of the context)
+		var walk func(st *types.Struct, depth int)
+		walk = func(st *types.Struct, depth int) {
+			for i := 0; i < st.NumFields(); i++ {
+				ft := st.Field(i).Type()
+				switch {
+				case c03ptrTo(ft, Mod+c03hp, "Request"):
+					ins = append(ins, st.Field(i))
+				case c03ptrTo(ft, "net/http", "Request"):
+					outs = append(outs, st.Field(i))
+				default:
+					if p, ok := ft.(*types.Pointer); ok {
+						ft = p.Elem()
+					}
+					if n, ok := ft.(*types.Named); ok && depth < 2 && n.Obj().Pkg() == pkg.Types {
+						if sub, ok := n.Underlying().(*types.Struct); ok {
+							walk(sub, depth+1)
+						}
+					}
+				}
 			}
 		}
+		walk(st, 0)
 		if len(ins) == 1 && len(outs) == 1 {
 			in, out = ins[0], outs[0]
 			n++
